@@ -38,6 +38,23 @@ def _non_missing_values(prop: PropDictNpArray) -> np.ndarray:
     return values
 
 
+def _annotated_nodes(
+    node_ids: np.ndarray, prop: PropDictNpArray
+) -> tuple[np.ndarray, np.ndarray]:
+    """Node ids and track ids restricted to the nodes whose track id is not flagged missing
+
+    A node whose tracklet / lineage id is missing belongs to no tracklet / lineage: the
+    fill value stored at that position must not be read as an id.
+    """
+    track_ids = prop["values"]
+    missing = prop["missing"]
+    if missing is not None:
+        present = np.logical_not(missing)
+        node_ids = node_ids[present]
+        track_ids = track_ids[present]
+    return node_ids, track_ids
+
+
 def validate_data(memory_geff: InMemoryGeff, config: ValidationConfig) -> None:
     """Validate the data of a geff based on the options selected in ValidationConfig
 
@@ -81,19 +98,21 @@ def validate_data(memory_geff: InMemoryGeff, config: ValidationConfig) -> None:
 
     if meta.track_node_props is not None:
         if config.tracklet and "tracklet" in meta.track_node_props:
-            node_ids = memory_geff["node_ids"]
             edge_ids = memory_geff["edge_ids"]
             tracklet_key = meta.track_node_props["tracklet"]
-            tracklet_ids = memory_geff["node_props"][tracklet_key]["values"]
+            node_ids, tracklet_ids = _annotated_nodes(
+                memory_geff["node_ids"], memory_geff["node_props"][tracklet_key]
+            )
             valid, errors = validate_tracklets(node_ids, edge_ids, tracklet_ids)
             if not valid:
                 raise ValueError("Found invalid tracklets:\n", "\n".join(errors))
 
         if config.lineage and "lineage" in meta.track_node_props:
-            node_ids = memory_geff["node_ids"]
             edge_ids = memory_geff["edge_ids"]
             lineage_key = meta.track_node_props["lineage"]
-            lineage_ids = memory_geff["node_props"][lineage_key]["values"]
+            node_ids, lineage_ids = _annotated_nodes(
+                memory_geff["node_ids"], memory_geff["node_props"][lineage_key]
+            )
             valid, errors = validate_lineages(node_ids, edge_ids, lineage_ids)
             if not valid:
                 raise ValueError("Found invalid lineages:\n", "\n".join(errors))
